@@ -13,7 +13,7 @@
 (* Checked: the final visibility does not depend on the order of reads;    *)
 (* ok/err are final; a read of an ok/err metric has no effect.             *)
 (***************************************************************************)
-EXTENDS Integers, Sequences, FiniteSets, TLC
+EXTENDS ResultLazyOps, TLC
 
 CONSTANTS
     Lists,      \* which per-instance lists the result was built with, subset of ListMetrics
@@ -22,76 +22,19 @@ CONSTANTS
     SqNone,     \* list metrics whose aggregate is None (edge case result NONE)
     Probe       \* the metrics the model reads individually (all of them in trace validation)
 
-ListMetrics == {"IOU", "DSC", "clDSC", "ASSD", "RVD"}
-SqName(lm) == CASE lm = "IOU" -> "sq" [] lm = "DSC" -> "sq_dsc" [] lm = "clDSC" -> "sq_cldsc" [] lm = "ASSD" -> "sq_assd" [] lm = "RVD" -> "sq_rvd"
-\* all metrics in the order the result object registers them
-Order == <<"num_ref_instances", "num_pred_instances", "tp", "fp", "fn", "prec", "rec", "rq",
-           "sq", "sq_std", "pq", "sq_dsc", "sq_dsc_std", "pq_dsc", "sq_cldsc", "sq_cldsc_std", "pq_cldsc",
-           "sq_assd", "sq_assd_std", "sq_rvd", "sq_rvd_std",
-           "global_bin_dsc", "global_bin_iou", "global_bin_assd", "global_bin_cldsc", "global_bin_rvd">>
-All == {Order[i] : i \in 1..Len(Order)}
-Given == {"num_ref_instances", "num_pred_instances", "tp"}
-GlobalName(g) == CASE g = "DSC" -> "global_bin_dsc" [] g = "IOU" -> "global_bin_iou" [] g = "ASSD" -> "global_bin_assd"
-                   [] g = "clDSC" -> "global_bin_cldsc" [] g = "RVD" -> "global_bin_rvd"
-GlobalNames == {GlobalName(g) : g \in ListMetrics}
-
-\* which list a metric is computed from ("-" = none)
-ListOf(m) == CASE m \in {"sq", "sq_std", "pq"} -> "IOU" [] m \in {"sq_dsc", "sq_dsc_std", "pq_dsc"} -> "DSC"
-               [] m \in {"sq_cldsc", "sq_cldsc_std", "pq_cldsc"} -> "clDSC" [] m \in {"sq_assd", "sq_assd_std"} -> "ASSD"
-               [] m \in {"sq_rvd", "sq_rvd_std"} -> "RVD" [] OTHER -> "-"
-IsPq(m) == m \in {"pq", "pq_dsc", "pq_cldsc"}
-SqOf(m) == CASE m = "pq" -> "sq" [] m = "pq_dsc" -> "sq_dsc" [] m = "pq_cldsc" -> "sq_cldsc"
-
-\* the metrics a computation reads, in the order it reads them
-Deps(m) == CASE m = "prec" -> <<"fp">> [] m = "rec" -> <<"fn">>
-             [] m = "rq" -> (IF TpZero THEN <<>> ELSE <<"fp", "fn">>)
-             [] IsPq(m) -> <<SqOf(m), "rq">>
-             [] OTHER -> <<>>
+Cf == [lists |-> Lists, globals |-> Globals, nopred |-> NoPred, noref |-> NoRef, tpzero |-> TpZero, sqnone |-> SqNone]
 
 VARIABLES st, last
 vars == <<st, last>>
-Init == /\ st = [m \in All |-> IF m \in Given \/ m \in {GlobalName(g) : g \in Globals} THEN "ok" ELSE "new"]
-        /\ last = [op |-> "init", m |-> "-", out |-> "-"]
+Init == st = InitState(Cf) /\ last = [op |-> "init", m |-> "-", out |-> "-"]
 
-\* own failure of the computation of m once its dependencies are there
-OwnErr(m) == \/ (ListOf(m) # "-" /\ ~IsPq(m) /\ ListOf(m) \notin Lists)        \* list not requested
-             \/ (m \in GlobalNames)                                             \* global metric not requested
-OwnExc(m) == \/ (m = "prec" /\ NoPred) \/ (m = "rec" /\ NoRef)
-             \/ (IsPq(m) /\ ListOf(m) \in SqNone)
-
-(***************************************************************************)
-(* Reading metric m in state s: the new state and the outcome              *)
-(* "ok" | "err" (MetricCouldNotBeComputedException) | "exc" (other).       *)
-(***************************************************************************)
-RECURSIVE Read(_, _)
-RECURSIVE ReadDeps(_, _)
-ReadDeps(s, ds) ==      \* read the dependencies left to right; stop at the first failure
-    IF ds = <<>> THEN [s |-> s, out |-> "ok"]
-    ELSE LET r == Read(s, Head(ds)) IN
-         IF r.out # "ok" THEN r ELSE ReadDeps(r.s, Tail(ds))
-Read(s, m) ==
-    IF s[m] = "ok" THEN [s |-> s, out |-> "ok"]
-    ELSE IF s[m] = "err" THEN [s |-> s, out |-> "err"]
-    ELSE LET d == ReadDeps(s, Deps(m)) IN
-         IF d.out = "err" THEN [s |-> [d.s EXCEPT ![m] = "err"], out |-> "err"]      \* a dependency could not be computed
-         ELSE IF d.out = "exc" THEN [s |-> d.s, out |-> "exc"]                       \* arithmetic failure below: m stays new
-         ELSE IF OwnErr(m) THEN [s |-> [d.s EXCEPT ![m] = "err"], out |-> "err"]
-         ELSE IF OwnExc(m) THEN [s |-> d.s, out |-> "exc"]
-         ELSE [s |-> [d.s EXCEPT ![m] = "ok"], out |-> "ok"]
-
-RECURSIVE ReadAll(_, _)
-ReadAll(s, i) == IF i > Len(Order) THEN s ELSE ReadAll(Read(s, Order[i]).s, i + 1)
-
-Get(m) == LET r == Read(st, m) IN st' = r.s /\ last' = [op |-> "get", m |-> m, out |-> r.out]
-CalcAll == st' = ReadAll(st, 1) /\ last' = [op |-> "calc_all", m |-> "-", out |-> "-"]
+Get(m) == LET r == Read(Cf, st, m) IN st' = r.s /\ last' = [op |-> "get", m |-> m, out |-> r.out]
+CalcAll == st' = ReadAll(Cf, st, 1) /\ last' = [op |-> "calc_all", m |-> "-", out |-> "-"]
 Next == (\E m \in Probe : Get(m)) \/ CalcAll
 Spec == Init /\ [][Next]_vars
 
-Visible(s) == {m \in All : s[m] = "ok"}
-
 \* the final visibility is a function of the configuration alone
-FinalState == ReadAll([m \in All |-> IF m \in Given \/ m \in {GlobalName(g) : g \in Globals} THEN "ok" ELSE "new"], 1)
-OrderIndependent == ReadAll(st, 1) = FinalState
+OrderIndependent == ReadAll(Cf, st, 1) = ReadAll(Cf, InitState(Cf), 1)
 Final == [][\A m \in All : (st[m] \in {"ok", "err"}) => st'[m] = st[m]]_vars
-Idempotent == \A m \in All : st[m] \in {"ok", "err"} => Read(st, m).s = st
+Idempotent == \A m \in All : st[m] \in {"ok", "err"} => Read(Cf, st, m).s = st
 =============================================================================
